@@ -28,6 +28,11 @@ def universes(tier):
     us.append(("carbon surplus", pf.dedupe(surplus), {}, 10))
     us.append(("size ladder", pf.dedupe(pf.LARGE), {}, 3))
     us.append(("atomic H/O reagents", pf.dedupe(pf.PLACEHOLDERS), {}, 8))
+    # every hand-built / residual-imbalance reaction as a run of its own and in small batches
+    singles = pf.dedupe(pf.RESIDUAL + pf.HAND)
+    us.append(("single-row runs", singles, {}, 1))
+    us.append(("residual imbalance, batches of 2", pf.dedupe(pf.RESIDUAL + pf.RESIDUAL[::-1]), {}, 2))
+    us.append(("residual imbalance bs=1", pf.dedupe(pf.RESIDUAL), {"batch_size": 1}, 4))
     if tier == "thorough":
         corpus = [r for r in pf.corpus_reactions("reaction") if pf.in_domain(r)]
         us.append(("validation corpus", corpus, {}, 25))
